@@ -447,7 +447,9 @@ func c12GenSeq(rng *rand.Rand, cfg c12GenCfg) c12Seq {
 		default:
 			op.Op = "clear"
 		}
-		if uns && rng.Intn(2) == 0 && !(avoid && k.Class == "bt") {
+		// self-referential belongs-to + Unscoped: inside listed finding F12a, and there the stray `DELETE FROM <owner table>`
+		// is valid SQL on the shared table (the model of F12a is written for distinct tables): not generated
+		if uns && rng.Intn(2) == 0 && !(avoid && k.Class == "bt") && k.Name != "self_belongs_to" {
 			op.Unscoped = true
 		}
 		nextAtStart := next
